@@ -12,9 +12,10 @@
 
    1. A statement starts a new line: its position differs from the current line — unless the
       current line holds only a label (`l: x := 1` is one line).  In particular the first
-      statement of a LOOP / WHILE body is not on the header's line, the END of a loop is not on
-      the line of the last statement of its body, and the statement behind a loop is not on the
-      line where the loop ended.
+      statement of a LOOP / WHILE body is not on the header's line and the END of a loop is not on
+      the line of the last statement of its body.  (END is a label: `END; z := 2` on one line is
+      accepted.  In a hand-made tree without the END mark, the statement behind a loop must not
+      be on the line where the loop's body ended.)
    2. A label starts a new line, always (`a: b: x := 1` is refused, and so is `x := 1; l:`
       followed by the labelled statement on the same line as `x := 1`).
    3. At the start of a routine body (a PROGRAM body, the main statements) the first statement or
